@@ -45,7 +45,7 @@ ASSUMPTIONS = ['host comparison: a bracketed IPv6 literal in the Host field is d
 RULE = ('request targets: all sequences of <= 4 (thorough: 6 sampled) tokens over {"/", ".", "..", "%2e", "%2E", "%2f", "%5c", "\\\\", "%25", "%c0%ae", "%252e", ";", "a", "b", "*"} as origin-form, plus absolute-form, authority-form and asterisk-form targets, '
 	'x Host forms (reg-name, IPv4, bracketed IPv6, with/without port, upper case, absent, sent twice; invalid: bad brackets / ports, short and non-decimal address forms, text after an address, URI delimiters, white space, control and 8-bit characters) x HTTP/1.0, 1.1; non-trivial = delivered; distinct by (target, host)')
 
-TOKENS = [b'/', b'.', b'..', b'%2e', b'%2E', b'%2f', b'%5c', b'\\', b'%25', b'%c0%ae', b'%252e', b';', b'a', b'b', b'*']
+TOKENS = [b'/', b'.', b'..', b'%2e', b'%2E', b'%2f', b'%5c', b'\\', b'%25', b'%c0%ae', b'%252e', b';', b'a', b'b', b'*', b'%3F', b'%23', b'b%3Fc', b'%3fq=1']
 HOSTS = [b'example.com', b'EXAMPLE.com:8080', b'127.0.0.1', b'127.0.0.1:81', b'[::1]', b'[2001:db8::1]:8443', b'h:0', b'h:65536', b'h:99999999999', b'', b'a b', b'h:', b'[::1', b'1.2.3', b'under_score', b'h,i', None, b'x:y', b'-', b'h.:80', b'example.com]', b'[[::1]]', b'[example.com:81', b']example.com[', b'[::1]]:80', b'[h', b'h]:80', b'[1.2.3.4]',
 	# what lenient address parsers accept: short and non-decimal forms, text after the address
 	b'1.2.3.4 evil.example', b'1.2.3.4\tx', b'1.2.3.4 /../..', b'1.2.3.4 :80', b'127.1', b'0x7f.1', b'0x7f.0.0.1', b'017700000001', b'2130706433', b'1.2.3.4.', b'1.2.3.04', b'1.2.3.256', b'1.2.3.4:80 x', b'::1', b'[::1] x', b'[::1%25eth0]', b'[::ffff:1.2.3.4]', b'[::ffff:1.2.3.4 x]', b'h\x0b', b'h\x7f', b'h\xa0', b'h%20x', b'h%', b'h?x', b'h#x', b'h?', b'#', b'h/x', b'u@h', b'h\\x', b'a?b/../c', b'h#@evil', b'h|x', b'h`x', b'h\x00', b'h\x1f',
@@ -166,6 +166,29 @@ def canonical(p):
 
 
 def oracle(case):
+	r = oracle1(case)
+	if r is None and case[0] == 't' and len(case) > 5:
+		# the Host field sent twice, the header section arriving line by line (the first Host line is consumed before the second arrives)
+		s = stream(case)
+		sm = parserutil.new_sm('server')
+		delivered = []
+		try:
+			pos = 0
+			while pos < len(s):
+				i = s.find(b'\r\n', pos)
+				j = len(s) if i < 0 else i + 2
+				delivered.extend(sm.parse(s[pos:j]))
+				pos = j
+		except Exception as e:
+			if not exc_name(e).startswith('status:'):
+				return {'what': 'parse raised %s' % exc_name(e), 'stream': s.decode('latin-1'), 'finding': None}
+		if delivered:
+			u = delivered[0][0].uri
+			return {'what': 'delivered (host %r, port %r) although the Host field was sent twice (%r and %r), the header section fed line by line' % (u.host, u.port, case[2], case[5]), 'stream': s.decode('latin-1'), 'finding': None}
+	return r
+
+
+def oracle1(case):
 	s = stream(case)
 	sm = parserutil.new_sm('server')
 	try:
